@@ -115,7 +115,18 @@ def efloat_value_set(es, nbits, enable_inf, nan_kind, eoffset):
     return fin, has_nan, has_inf, has_negzero
 
 
+_SPEC_CACHE = {}
+
+
 def spec_of(desc) -> FormatSpec:
+    import json
+    key = json.dumps({k: v for k, v in desc.items() if k not in ('rm', 'ov', 'nan_value', 'inf_value')}, sort_keys=True)
+    if key not in _SPEC_CACHE:
+        _SPEC_CACHE[key] = _spec_of(desc)
+    return _SPEC_CACHE[key]
+
+
+def _spec_of(desc) -> FormatSpec:
     fam = desc['fam']
     if fam == 'MPFloat':
         return FormatSpec(desc['pmax'], None, has_nan=desc.get('enable_nan', True), has_inf=desc.get('enable_inf', True))
